@@ -2061,7 +2061,10 @@ func (a *align) Compress() (weights []int) {
 	for seq := 0; seq < a.NbSequences(); seq++ {
 		a.seqs[seq].sequence = a.seqs[seq].sequence[:npat]
 	}
-	a.length = npat
+	// An alignment without any sequence has no length (-1), as after Clear()
+	if a.NbSequences() > 0 {
+		a.length = npat
+	}
 	return
 }
 
